@@ -12,6 +12,8 @@ import subprocess
 ROOT = os.path.dirname(os.path.dirname(os.path.abspath(__file__)))
 
 MAP = [
+    ("a named extended key parsed from a PSBT keeps the network of its version bytes", "C10", "testnet PSBT with tpubs at a path without coin type (m/45'/0): parse without a network argument guessed mainnet from the path and re-serialised the global xpubs as xpub: serialize -> parse -> serialize changed the bytes"),
+    ("create_multisig_psbt keys the global xpubs like the parser does", "C10", "combining the builder's PSBT object with a parsed (signed) copy wrote every PSBT_GLOBAL_XPUB twice (duplicate keys; re-serialisation of the result differed)"),
     ("decode_bech32 requires the separator after the regtest prefix", "C09", "bcrt!q..., bcrtxq... decoded like bcrt1q...: a second string for the same script"),
     ("decode_bech32 rejects non-zero or over-long padding", "C09", "segwit addresses with non-zero padding bits or an extra zero group (valid checksum) decoded to the program of the canonical address (BIP173 MUST reject)"),
     ("base58 addresses are accepted only with a standard version byte", "C09", "address_to_script_pubkey / TxOut.to_address chose the script from the first character: Base58Check strings with version 0x06, 0x6e.. or a 19/21-byte payload were returned as P2PKH/P2SH scripts"),
